@@ -346,13 +346,14 @@ Section Elab.
   Proof. reflexivity. Qed.
 
   Lemma scan_nonci o s : o_ci o = false -> wf_syn s -> syn_guard o s ->
-    scanned o s (scan_char_set cat_in to_lower o s).
+    exists c, scan_char_set cat_in simple_fold to_lower fuel o s = Ok c /\ scanned o s c.
   Proof.
     intros Hci. induction s as [ng items | ng items s' IH] using csyn_induction; intros Hw Hg;
       cbn in Hw, Hg; destruct Hw as [Hw Hw']; destruct Hg as [Hg Hg'].
     - destruct (items_step o items _ scan_inv_init Hw Hg) as [(I1 & I2 & I3 & I4 & I5 & I6) T].
-      cbn [scan_char_set]. rewrite Hci.
+      cbn [scan_char_set]. rewrite Hci. cbn [bind].
       set (c := fold_left (elab_item cat_in o) items (Cls [] [] None true false None)) in *.
+      eexists. split; [reflexivity|].
       assert (Hw1 : wf_ranges (ranges (set_neg c ng))) by exact I4.
       destruct (canonicalize_same_set cat_in _ Hw1) as (S1 & S2 & S3 & S4 & S5).
       cbn [sub ascii set_neg] in S1, S2.
@@ -366,11 +367,11 @@ Section Elab.
         rewrite T by auto. cbn [body ranges cats mem cats_in existsb orb].
         rewrite sem_unfold. cbn zeta. rewrite Hci. rewrite den_neg_if. f_equal.
         cbn [denote existsb]. rewrite !existsb_flat_map. reflexivity.
-    - specialize (IH Hw' Hg'). destruct IH as (C1 & C2 & C3 & C4 & C5).
+    - specialize (IH Hw' Hg'). destruct IH as (sc & Hsc & C1 & C2 & C3 & C4 & C5).
       destruct (items_step o items _ scan_inv_init Hw Hg) as [(I1 & I2 & I3 & I4 & I5 & I6) T].
-      cbn [scan_char_set]. rewrite Hci.
+      cbn [scan_char_set]. rewrite Hci. rewrite Hsc. cbn [bind].
       set (c := fold_left (elab_item cat_in o) items (Cls [] [] None true false None)) in *.
-      set (sc := scan_char_set cat_in to_lower o s') in *.
+      eexists. split; [reflexivity|].
       assert (Hw1 : wf_ranges (ranges (set_neg (add_subtraction c sc) ng))) by exact I4.
       destruct (canonicalize_same_set cat_in _ Hw1) as (S1 & S2 & S3 & S4 & S5).
       cbn [sub ascii set_neg add_subtraction set_sub] in S1, S2.
@@ -394,8 +395,9 @@ Section Elab.
     elab cat_in simple_fold to_lower fuel s o = Ok c ->
     char_in cat_in c ch = den (sem o s) ch.
   Proof.
-    intros Hci Hw Hv He. pose proof (syn_guard_cs o s Hci) as Hg. unfold elab in He. rewrite Hci in He. injection He as <-.
-    destruct (scan_nonci o s Hci Hw Hg) as (C1 & C2 & _ & _ & C5).
+    intros Hci Hw Hv He. pose proof (syn_guard_cs o s Hci) as Hg. unfold elab in He.
+    destruct (scan_nonci o s Hci Hw Hg) as (c' & Hc' & C1 & C2 & _ & _ & C5).
+    rewrite Hc' in He. cbn [bind] in He. rewrite Hci in He. injection He as <-.
     destruct (lookup_agree cat_in _ C1 (no_bitmaps_ok _ C2) ch) as [_ L]. rewrite L. apply C5. exact Hv.
   Qed.
 
@@ -404,8 +406,9 @@ Section Elab.
     o_ci o = false -> wf_syn s ->
     elab cat_in simple_fold to_lower fuel s o = Ok c -> canonical c /\ no_bitmaps c.
   Proof.
-    intros Hci Hw He. unfold elab in He. rewrite Hci in He. injection He as <-.
-    destruct (scan_nonci o s Hci Hw (syn_guard_cs o s Hci)) as (C1 & C2 & _). auto.
+    intros Hci Hw He. unfold elab in He.
+    destruct (scan_nonci o s Hci Hw (syn_guard_cs o s Hci)) as (c' & Hc' & C1 & C2 & _).
+    rewrite Hc' in He. cbn [bind] in He. rewrite Hci in He. injection He as <-. auto.
   Qed.
 
 End Elab.
